@@ -42,9 +42,38 @@ def exc_site(e: BaseException) -> str:
   return f"{type(e).__name__}:{site}"
 
 
+def run_corpus(ctx, params, props):
+  """Documents returned by the readers on bundled files: snapshots of documents nobody designed for the monitors."""
+  import os
+  from vt.props import c07
+  cmp_counters = collections.Counter()
+  for path in params["files"]:
+    doc = c07.read_file(path)
+    if doc is None:
+      continue
+    ctx.count("corpus-docs")
+    rng = ctx.rng("corpus", path)
+    adoc = absdoc.snap_doc(doc)
+    times = probe_times(adoc, rng, n_random=1, dense=False)
+    if len(times) > 24:
+      times = times[:12] + times[-12:]
+    check_doc(ctx, None, rng, props, (), cmp_counters, times=times, live_doc=doc, file=os.path.relpath(path, core.REPO))
+  for k, v in cmp_counters.items():
+    ctx.count(k, v)
+
+
+def corpus_shards(tier, nshards=2):
+  from vt.props import c07
+  files = c07.corpus(tier)
+  return [{"kind": "corpus", "files": files[i::nshards]} for i in range(nshards)]
+
+
 def run_docs(ctx: core.Ctx, params, props, profile="isd"):
   """params: {"n": docs, "shard": i}. props: subset of {"C01","C03","C13"} to judge."""
   from ttconv.isd import ISD
+  if params.get("kind") == "corpus":
+    run_corpus(ctx, params, props)
+    return
   n = params["n"]
   focus_cycle = model_docs.ALL_PROPS
   cmp_counters = collections.Counter()
@@ -57,16 +86,22 @@ def run_docs(ctx: core.Ctx, params, props, profile="isd"):
     ctx.count(k, v)
 
 
-def check_doc(ctx, adoc0, rng, props, classes=(), cmp_counters=None, times=None, replay_mode=False):
+def check_doc(ctx, adoc0, rng, props, classes=(), cmp_counters=None, times=None, replay_mode=False, live_doc=None, file=None):
   from ttconv.isd import ISD
-  payload_doc = build.dumps(adoc0)
-  try:
-    doc = build.build_doc(adoc0)
-  except Exception as e:  # pylint: disable=broad-except
-    ctx.notes.append(f"generator produced a document the model API rejects: {type(e).__name__}: {e}")
-    ctx.count("gen:rejected")
-    return
+  if live_doc is not None:
+    doc = live_doc
+    payload_doc = None
+  else:
+    payload_doc = build.dumps(adoc0)
+    try:
+      doc = build.build_doc(adoc0)
+    except Exception as e:  # pylint: disable=broad-except
+      ctx.notes.append(f"generator produced a document the model API rejects: {type(e).__name__}: {e}")
+      ctx.count("gen:rejected")
+      return
   adoc = absdoc.snap_doc(doc)
+  if payload_doc is None:
+    payload_doc = build.dumps(adoc)
   for c in classes:
     ctx.count("class:" + c)
   source_ids = isdcheck.source_object_ids(doc) if "C13" in props else None
@@ -87,7 +122,7 @@ def check_doc(ctx, adoc0, rng, props, classes=(), cmp_counters=None, times=None,
         continue
       ctx.ev()
       ctx.count("snapshots:" + mode)
-      rp = {"doc": payload_doc, "t": f"{t.numerator}/{t.denominator}", "mode": mode}
+      rp = {"doc": payload_doc, "t": f"{t.numerator}/{t.denominator}", "mode": mode, "file": file}
       try:
         isd = ISD.from_model(doc, t) if mode == "plain" else ISD.from_model(doc, t, sig)
       except Exception as e:  # pylint: disable=broad-except
